@@ -1,26 +1,42 @@
 (** Property C08: worst-case ratio of the Karmarkar-Karp heuristic (Model/KK.v, [kk]).
 
     The requested statement [kk_ratio_43_statement] (Michiels, Korst, Aarts, van Leeuwen 2003:
-    3 k L <= (4 k - 1) OPT) is NOT proved here; it is kept as a Definition, checked by
-    vm_compute against the exact oracle on a family of small instances, and proved for k = 1.
+    3 k L <= (4 k - 1) OPT, L = largest sum of kk) is proved here for k = 1 and k = 2 only; for
+    k >= 3 it stays OPEN (it is kept as a Definition and checked by vm_compute against the exact
+    oracle on small instances).
 
-    What is proved (strictly better than [CKKOptimal.kk_ratio_2] for every k >= 2):
+    Proved:
+      kk_dichotomy            : for every threshold G >= 0 that at most k items exceed,
+                                L <= largest item   \/   largest - smallest sum <= G
+      kk_ratio_32_partial     : every k:  2 k L <= (3 k - 1) OPT   (3/2 - 1/(2k); improves on
+                                the (2 - 1/k) of [CKKOptimal.kk_ratio_2] for every k >= 2)
+      kk_ratio_43_k2          : k = 2:  6 L <= 7 OPT   (Fischetti and Martello 1987; attained)
+      kk_ratio_43_k12_partial : the requested bound for 1 <= k <= 2
+      kk_ratio_43_from_dichotomy : the requested bound for any k from the hypothesis
+                                "L <= OPT or the sums differ by at most the (2k+1)-th largest
+                                value"; that hypothesis is false for k = 3
+                                ([kk_dichotomy_2k_fails_k3]), so the general proof must be different.
 
-      kk_dichotomy          : for every threshold G >= 0 such that at most k items exceed G,
-                              largest sum <= largest item   \/   largest - smallest sum <= G
-      kk_ratio_32_partial   : 2 k L <= (3 k - 1) OPT       (L <= (3/2 - 1/(2k)) OPT)
-      kk_ratio_54_k2_partial: for k = 2,  4 L <= 5 OPT
-
-    Proof of the dichotomy: call an entry of the heap "big" when its spread (largest - smallest
-    sum) exceeds G.  Heap order puts the big entries first.  As long as there are two big
-    entries, each of them consists of items > G only, at most one per bin, and together they hold
-    at most k such items, so combining the two top entries never puts two items into one bin:
-    every sum is 0 or a single item.  When one big entry is left, the entries it absorbs are
-    single items y <= G; y goes to its smallest bin, which stays below its largest bin because
-    the spread exceeds G >= y: the largest sum does not change.  When no big entry is left, all
-    spreads are <= G for ever ([KKProofs.kk_combine_spread]).
+    Proof of the dichotomy (sections 3-6): call an entry of the heap "big" when its spread
+    (largest - smallest sum) exceeds G.  Heap order puts the big entries first.  As long as there
+    are two big entries, each of them consists of items > G only, at most one per bin, and
+    together they hold at most k such items, so combining the two top entries never puts two
+    items into one bin: every sum is 0 or a single item.  When one big entry is left, the entries
+    it absorbs are single items y <= G; y goes to its smallest bin, which stays below its largest
+    bin because the spread exceeds G >= y: the largest sum does not change.  When no big entry is
+    left, all spreads are <= G for ever ([KKProofs.kk_combine_spread]).
     With G = the (k+1)-th largest value, k + 1 values are >= G, two of them share a bin of any
-    partition, so 2 G <= OPT, and k L <= total + (k - 1) G. *)
+    partition, so 2 G <= OPT, and k L <= total + (k - 1) G.
+
+    Proof for k = 2 (sections 9-12): the spreads of the entries of a 2-bin heap evolve by
+    differencing the two largest numbers ([kd], simulation [sim2]), and 2 L = total + final
+    difference d.  With a1 >= a2 >= ... the values and G = a5 (0 if there is none): after at most
+    two differencing steps at most two numbers exceed G, and then either d <= G or the top number
+    absorbs everything ([kd_dom], [kd_two]); following the (five) possible orders of the first
+    two steps ([kd_four]) gives d <= a5, or total + d = 2 a1, 2 (a2 + a3), 2 (a2 + a3 + a4) with
+    a1 >= a2 + a3, or 2 (a1 + a4) with a1 <= a2 + a3.  Each of these is at most 2 OPT
+    ([opt2_four]: enumeration of the placements of four values in two bins), and 3 a5 <= OPT
+    because three of the five largest values share a bin ([pigeon_thrice]). *)
 From Prtpy Require Import Base.Prelude Base.Perms Model.Binner Model.KK Model.Objectives
   Spec.Partition Proofs.BaseLemmas Proofs.BinnerLemmas Proofs.KKProofs Proofs.RatioProofs
   Proofs.CKKOptimal Proofs.GreedyProofs Oracle.Reach Proofs.OracleSpec.
@@ -1366,6 +1382,116 @@ Section Sim2.
     injection Hkk as <-. injection Es as Ee.
     destruct (two_vec e (Forall_inv HBf)) as (lo & hi & E & Ho & K).
     rewrite E in *. rewrite <- (zsum_perm _ _ (sorted_values_perm valueof items)) in Hsum. fold l in Hsum.
-    rewrite !zs_cons, zs_nil in Hsum. unfold zmax. cbn. Show. lia.
+    rewrite !zs_cons, zs_nil in Hsum. assert (Hz : zmax [lo; hi] = Z.max lo hi) by reflexivity. rewrite Hz. lia.
   Qed.
 End Sim2.
+
+(** the requested bound for k <= 2 *)
+Theorem kk_ratio_43_k12_partial {A} (valueof : A -> Z) k items b opt : (1 <= k <= 2)%nat ->
+  items <> [] -> Forall (fun x => 0 <= valueof x) items -> kk valueof true k items = Ok b ->
+  Opt MinLargest k (map valueof items) opt ->
+  3 * Z.of_nat k * zmax (sums b) <= (4 * Z.of_nat k - 1) * opt.
+Proof.
+  intros Hk Hne Hpos Hkk Hopt. destruct (Nat.eq_dec k 1) as [E|E].
+  - subst k. apply (kk_ratio_43_k1 valueof items b opt); assumption.
+  - assert (E2 : k = 2%nat) by lia. subst k. apply (kk_ratio_43_k2 valueof items b opt); assumption.
+Qed.
+
+(** ---- 13. examples and machine checks against the exact oracle ---- *)
+Notation idZ := (fun v : Z => v).
+
+Definition kk_sums (k : nat) (vs : list Z) : list Z :=
+  match kk idZ true k vs with Ok b => sums b | Err _ => [] end.
+Definition optv (k : nat) (vs : list Z) : Z :=
+  match opt_value MinLargest k vs with Some v => v | None => 0 end.
+
+(** the requested bound is attained for k = 2 (Fischetti and Martello's 7/6) *)
+Example kk_43_tight_k2 :
+  kk_sums 2 [3; 3; 2; 2; 2] = [5; 7] /\ optv 2 [3; 3; 2; 2; 2] = 6 /\ 3 * 2 * 7 = (4 * 2 - 1) * 6.
+Proof. vm_compute. repeat split; reflexivity. Qed.
+
+(** the theorems applied to it through the verified oracle *)
+Example kk_32_example b : kk idZ true 2 [3; 3; 2; 2; 2] = Ok b -> 4 * zmax (sums b) <= 5 * 6.
+Proof.
+  intros H. apply (kk_ratio_54_k2_partial idZ [3; 3; 2; 2; 2] b 6); [discriminate| |exact H|].
+  - repeat constructor; lia.
+  - destruct (opt_value_spec MinLargest 2 [3; 3; 2; 2; 2] ltac:(lia)) as (v & Ev & Hv).
+    vm_compute in Ev. injection Ev as <-. rewrite map_id. exact Hv.
+Qed.
+
+Fixpoint lcg43 (n : nat) (s md : Z) : list Z :=
+  match n with
+  | O => []
+  | S m => let s' := (s * 1103515245 + 12345) mod 2147483648 in (1 + (s' / 65536) mod md) :: lcg43 m s' md
+  end.
+Definition inst43 (seed : Z) : nat * list Z :=
+  (Z.to_nat (1 + seed mod 4), lcg43 (Z.to_nat (1 + seed mod 9)) seed (3 + seed mod 17)).
+
+Definition kth_of (j : nat) (vs : list Z) : Z := nth j (sort_desc idZ vs) 0.
+Definition check_dichotomy (k : nat) (vs : list Z) : bool :=
+  let s := kk_sums k vs in (zmax s <=? zmax vs) || (zmax s - zmin s <=? kth_of k vs).
+Definition check_32 (k : nat) (vs : list Z) : bool :=
+  2 * Z.of_nat k * zmax (kk_sums k vs) <=? (3 * Z.of_nat k - 1) * optv k vs.
+Definition check_43 (k : nat) (vs : list Z) : bool :=
+  3 * Z.of_nat k * zmax (kk_sums k vs) <=? (4 * Z.of_nat k - 1) * optv k vs.
+
+(** the proved statements and the requested (unproved) one on 300 pseudo-random instances,
+    k = 1..4, up to 9 items *)
+Example kk_checks_random :
+  forallb (fun s => let (k, vs) := inst43 s in check_dichotomy k vs && check_32 k vs && check_43 k vs)
+          (map Z.of_nat (seq 1 300)) = true.
+Proof. vm_compute. reflexivity. Qed.
+
+(** the hypothesis of [kk_ratio_43_from_dichotomy]; for k = 2 it holds on these instances (and the
+    bound for k = 2 is proved above by a different route, [kk_ratio_43_k2]) *)
+Definition check_dichotomy_2k (k : nat) (vs : list Z) : bool :=
+  let s := kk_sums k vs in (zmax s <=? optv k vs) || (zmax s - zmin s <=? kth_of (2 * k) vs).
+
+Example kk_dichotomy_2k_k2_random :
+  forallb (fun s => check_dichotomy_2k 2 (lcg43 (Z.to_nat (1 + s mod 11)) s (3 + s mod 23)))
+          (map Z.of_nat (seq 1 300)) = true.
+Proof. vm_compute. reflexivity. Qed.
+
+(** ... but that hypothesis is FALSE for k = 3: sums 6, 7, 8, optimum 7, 7th largest value 1.
+    (The bound itself holds: 9 * 8 <= 11 * 7.)  So the proof of the general bound cannot be
+    the threshold argument used here. *)
+Example kk_dichotomy_2k_fails_k3 :
+  kk_sums 3 [6; 4; 3; 3; 2; 2; 1] = [6; 7; 8] /\ optv 3 [6; 4; 3; 3; 2; 2; 1] = 7 /\
+  kth_of 6 [6; 4; 3; 3; 2; 2; 1] = 1 /\ check_dichotomy_2k 3 [6; 4; 3; 3; 2; 2; 1] = false /\
+  check_43 3 [6; 4; 3; 3; 2; 2; 1] = true.
+Proof. vm_compute. repeat split; reflexivity. Qed.
+
+Example kk_43_example b : kk idZ true 2 [3; 3; 2; 2; 2] = Ok b -> 6 * zmax (sums b) <= 7 * 6.
+Proof.
+  intros H.
+  pose proof (kk_ratio_43_k2 idZ [3; 3; 2; 2; 2] b 6 ltac:(discriminate)) as T. cbn [Z.of_nat] in T.
+  assert (T' : 3 * 2 * zmax (sums b) <= (4 * 2 - 1) * 6); [|lia].
+  apply T; [repeat constructor; lia|exact H|].
+  destruct (opt_value_spec MinLargest 2 [3; 3; 2; 2; 2] ltac:(lia)) as (v & Ev & Hv).
+  vm_compute in Ev. injection Ev as <-. rewrite map_id. exact Hv.
+Qed.
+
+(* OPEN: kk_ratio_43_statement for k >= 3 (Michiels, Korst, Aarts, van Leeuwen 2003).  Proved here:
+   k = 1 and k = 2 ([kk_ratio_43_k12_partial]) and, for every k, the weaker constant 3/2 - 1/(2k)
+   ([kk_ratio_32_partial]).  The threshold argument of this file (all spreads eventually below the
+   (k+1)-th largest value, or the largest sum is a single item) cannot be pushed to the
+   (2k+1)-th largest value for k >= 3: see [kk_dichotomy_2k_fails_k3]. *)
+
+Check kk_dichotomy.
+Check kk_gap_kth.
+Check kk_ratio_32_partial.
+Check kk_ratio_54_k2_partial.
+Check kk_ratio_43_from_dichotomy.
+Check kd_ratio_76.
+Check kk_ratio_43_k1.
+Check kk_ratio_43_k2.
+Check kk_ratio_43_k12_partial.
+
+Print Assumptions kk_dichotomy.
+Print Assumptions kk_ratio_32_partial.
+Print Assumptions kk_ratio_43_from_dichotomy.
+Print Assumptions kk_ratio_43_k2.
+Print Assumptions kk_ratio_43_k12_partial.
+Print Assumptions kk_32_example.
+Print Assumptions kk_43_example.
+Print Assumptions kk_checks_random.
